@@ -1,6 +1,8 @@
 use crate::common::*;
 use serde_json::Value;
 
+pub mod c01;
+pub mod c09;
 pub mod c16;
 
 pub struct PropSpec {
@@ -14,7 +16,7 @@ pub struct PropSpec {
 }
 
 pub fn all() -> Vec<PropSpec> {
-    vec![c16::spec()]
+    vec![c01::spec(), c09::spec(), c16::spec()]
 }
 
 pub fn get(id: &str) -> Option<PropSpec> {
